@@ -211,10 +211,12 @@ func c11worker(e *env) {
 		br := bufio.NewReader(rd)
 		p := newParser(in.Proto, br)
 		var seq []string
+		noProgress := false
 		for step := 0; ; step++ {
 			atomic.StoreInt64(&lastProgress, time.Now().UnixNano())
 			if step > len(in.Wire)+2 {
 				emit(line11{I: i, Step: &step11{Class: clNoProg, Err: "more Parse calls than input bytes"}})
+				noProgress = true
 				break
 			}
 			a0 := allocated()
@@ -248,7 +250,7 @@ func c11worker(e *env) {
 				sawErr = true
 			}
 		}
-		if loopEvery > 0 && (i%loopEvery == 0 || sawErr) {
+		if loopEvery > 0 && (i%loopEvery == 0 || sawErr) && !noProgress { // (the real loop would spin as well)
 			// the same bytes through the real DefaultServer.Loop: it must dispatch the same
 			// requests / error replies in the same order and then close its connections
 			rd2 := &segReader{data: in.Wire}
@@ -617,7 +619,7 @@ func randomInputs(g gen07, count int) []in11 {
 func c11(e *env) {
 	log.SetOutput(io.Discard)
 	w := rig.NewWriter(e.out, "C11", e.tier, e.seed)
-	w.Shards = 12
+	w.Shards = 16
 	g := gen07{rig.NewRand(e.seed)}
 	imports := []string{"base.Bytes", "base.Harness", "proto.Resp", "checks.Check11"}
 	w.Res.Rule = "binary: the input has a complete header that passes the magic check and either its length fields contradict each other or the loop did not end on a clean end of input; " +
